@@ -394,6 +394,19 @@ def oracle(ctx, budget):
     if hs is None or budget > 1:
         hs = histories(ctx, ctx.scale(100, 1500) * budget, 30)
         impl = _impl(ctx, hs)
+    # implementation-only histories with a push that lands between CI's last look at GitHub and its merge request (GitHub refuses the
+    # merge because the `sha` CI sends no longer matches the head); these have no model counterpart and are judged by check_merges alone
+    racing = []
+    for h in (hs[:400] if budget <= 1 else hs):
+        idx = [i for i, e in enumerate(h) if e[0] == 'HealMerge' and e[1]]
+        if idx:
+            i = idx[ctx.rng.randrange(len(idx))]
+            prs = sorted({e[1] for e in h[:i] if e[0] == 'Open'})
+            if prs:
+                racing.append(h[:i] + [['RacingPush', ctx.rng.choice(prs)]] + h[i:])
+    if racing:
+        hs = list(hs) + racing
+        impl = list(impl) + _impl(ctx, racing)
     n_merges = 0
     shortest = {}
     for h, ir in zip(hs, impl):
